@@ -204,6 +204,8 @@ func exprType(e string) string {
 		return "script"
 	case strings.HasPrefix(e, "comp("):
 		return "component"
+	case strings.HasPrefix(e, `"`) || strings.HasPrefix(e, "`"):
+		return "const" // untyped string constant: compiles in every sink
 	}
 	return "string"
 }
@@ -291,6 +293,9 @@ func posKey(pos string) string {
 
 // accepts: does generated code for an expression of type ty compile at pos?
 func accepts(pos, ty string) bool {
+	if ty == "const" { // untyped string constant: fits string and SafeURL, not ComponentScript / Component
+		return pos != "call" && posKey(pos) != "attr:onclick" && posKey(pos) != "attr:hx-on:click"
+	}
 	switch posKey(pos) {
 	case "text", "attr:data-x":
 		return ty == "string"
